@@ -140,6 +140,69 @@ def run_expose(case, seed, R):
     R.outcome('exposed')
 
 
+LAYOUTS = ('C', 'F', 'T-view', 'strided', 'reversed')
+
+
+def in_layout(a, layout):
+    """The same values as the C-ordered array a, laid out differently in memory."""
+    if a is None or layout == 'C':
+        return a
+    if layout == 'F':
+        return np.asfortranarray(a)
+    if layout == 'T-view':
+        return np.ascontiguousarray(a.T).T            # transposed view of a C array
+    if layout == 'strided':
+        big = np.full((2 * a.shape[0] + 1, 3 * a.shape[1] + 2), -1.0)
+        big[1::2, 2::3] = a
+        return big[1::2, 2::3]
+    if layout == 'reversed':
+        return np.ascontiguousarray(a[::-1, ::-1])[::-1, ::-1]
+    raise KeyError(layout)
+
+
+def run_expose_layout(case, seed, R):
+    bits, gain, frames, maps, layout = case['bits'], case['gain'], case['frames'], case['maps'], case['layout']
+    shape = tuple(case['shape'])
+    bias, fwc = 10, 1e12
+    dcnu = nu_map(maps, shape)
+    prnu = nu_map(maps, shape)
+    dc = 0.0 if dcnu is None else 2.0
+    P = dict(bits=bits, gain=gain, bias=bias, fwc=fwc, dcnu=dcnu, prnu=prnu, dc=dc)
+    cap = 2 ** bits - 1
+    want_shape = shape if frames == 1 else (frames, *shape)
+    det = detector.Detector(dark_current=dc, read_noise=3.0, bias=bias, fwc=fwc, conversion_gain=gain, bits=bits, exposure_time=T_EXP,
+                            prnu=in_layout(prnu, layout if case['maps_too'] else 'C'), dcnu=in_layout(dcnu, layout if case['maps_too'] else 'C'))
+    n = shape[0] * shape[1]
+    sigs = signal_alphabet(bits, gain, bias, fwc)
+    ramp = (np.arange(n, dtype=float) + 1).reshape(shape) * (1.2 * cap * gain / n)        # every pixel different, the last ones saturated
+    mixed = np.array([sigs[(5 * j + 1) % len(sigs)] for j in range(n)]).reshape(shape)
+    sig = f'expose:layout:{layout}'
+    with noise_free():
+        for im, label in ((ramp, 'ramp'), (mixed, 'mixed alphabet')):
+            arg = in_layout(im / T_EXP, layout)
+            out = R.call(det.expose, arg, frames, sig=sig + ':exception')
+            if out is FAILED:
+                continue
+            try:
+                out = np.asarray(out)
+                ok = out.shape == want_shape and out.dtype.kind in 'ui'
+            except Exception:   # noqa
+                ok = False
+            if not R.expect(ok, sig + ':shape', f'{label}: shape/dtype {getattr(out, "shape", None)} {getattr(out, "dtype", None)}, documented {want_shape} unsigned'):
+                continue
+            dn = out.astype(np.int64).reshape((frames, *shape))
+            lo, hi, regime = ref_expose(im / T_EXP, P)
+            bad = (dn < lo) | (dn > hi)
+            R.checks += 1
+            if bad.any():
+                i = tuple(int(v) for v in np.argwhere(bad)[0])
+                R.violation(sig, f'{label} image in {layout} layout {shape}: DN {dn[i]} at frame/pixel {i}, reference {lo[i[1:]]}..{hi[i[1:]]} '
+                                 f'(bits={bits} gain={gain}; {int(bad.sum())} pixels wrong -- pixels permuted?)')
+    R.nontrivial(layout != 'C')
+    R.outcome(layout)
+
+
+
 # ---------------------------------------------------------------------------------------------
 # bindown / tile
 
@@ -219,6 +282,78 @@ def run_bin(case, seed, R):
         R.tick()
     R.nontrivial(pf > 1)
     R.outcome('binned' if pf > 1 else 'factor-1')
+
+
+BIN_DTYPES = ('bool', 'uint8', 'uint16', 'int32', 'float32')
+
+
+def data_as(shape, seed, dt, variant):
+    n = int(np.prod(shape))
+    k = np.arange(n)
+    if dt == 'bool':
+        a = np.ones(n, dtype=bool) if variant == 'top' else (np.abs(dense((n,), seed, 7, complex_=False)) > 0.5)
+    elif dt == 'uint8':
+        a = (255 - k % 6) if variant == 'top' else (k * 37) % 256
+    elif dt == 'uint16':
+        a = (65535 - k % 7) if variant == 'top' else (4095 - k % 5)          # 16-bit and 12-bit frames
+    elif dt == 'int32':
+        a = (2 ** 31 - 1 - k % 5) if variant == 'top' else (-(2 ** 31) + k % 3)
+    else:
+        a = np.abs(dense((n,), seed, 8, complex_=False)) * (1000.0 if variant == 'top' else 1.0)
+    return np.asarray(a).astype(dt).reshape(shape)
+
+
+def run_bin_dtype(case, seed, R):
+    shape, factor, dt = tuple(case['shape']), tuple(case['factor']), case['dtype']
+    S, small = ref_sum_matrix(shape, factor)
+    Si = S.astype(np.int64)
+    pf = int(np.prod(factor))
+    integer = dt != 'float32'
+    e32 = float(np.finfo(np.float32).eps)
+    for variant in ('top', 'mid'):
+        x = data_as(shape, seed, dt, variant)
+        y = data_as(small, seed, dt, variant)
+        # exact reference in Python integers (float64 for the float32 alphabet cell)
+        if integer:
+            xi = x.ravel().astype(np.int64)                     # |x| <= 2^31, at most 216 terms per bin: exact in int64
+            want_sum = [int(v) for v in (Si @ xi)]
+            total = sum(int(v) for v in x.ravel().tolist())
+        else:
+            want_sum = (S @ x.ravel().astype(float))
+            total = float(x.astype(float).sum())
+        mag = float(np.abs(x.astype(float)).sum())
+        sig = f'bindown:sum:dtype={dt}'
+        bs = R.call(detector.bindown, x, factor, 'sum')
+        if bs is not FAILED:
+            try:
+                b = np.asarray(bs)
+                ok = b.shape == small and b.dtype.kind in 'fiub'
+            except Exception:   # noqa
+                ok = False
+            if R.expect(ok, sig, f'bindown({dt}{shape}, {factor}, sum): shape/dtype {getattr(bs, "shape", None)} {getattr(bs, "dtype", None)}'):
+                if integer:
+                    got = [int(v) for v in b.ravel().tolist()]
+                    R.expect(got == want_sum, sig, f'bindown({dt}{shape} {variant}, {factor}, sum) = {got[:4]}.., exact integer sums {want_sum[:4]}..')
+                    R.expect(sum(got) == total, sig + ':conserve', f'total {sum(got)} != {total} (Python integers) for {dt}{shape} {variant} factor {factor}')
+                else:
+                    R.expect_close(b, np.asarray(want_sum).reshape(small), 64 * e32 * max(mag, 1e-30), sig, f'float32 {variant} sums')
+                    R.expect_close(float(b.astype(float).sum()), total, 64 * e32 * max(mag, 1e-30), sig + ':conserve', 'float32 total')
+        ba = R.call(detector.bindown, x, factor, 'avg')
+        want_avg = np.asarray([float(v) / pf for v in want_sum]).reshape(small)
+        R.expect_close(ba, want_avg, (8 * EPS if integer else 64 * e32) * np.maximum(np.abs(want_avg), mag / pf if not integer else 1.0),
+                       f'bindown:avg:dtype={dt}', f'bindown({dt}{shape} {variant}, {factor}, avg) vs exact means')
+        # tile: replicate (avg) keeps every value, sum spreads value/prod(factor)
+        yf = y.astype(float)
+        rep = (S.T @ yf.ravel()).reshape(shape)
+        ta = R.call(detector.tile, y, factor, 'avg')
+        R.expect_close(ta, rep, 0.0, f'tile:avg:dtype={dt}', f'tile({dt}{small} {variant}, {factor}, avg) must replicate the values exactly')
+        ts = R.call(detector.tile, y, factor, 'sum')
+        if R.expect_close(ts, rep / pf, (64 * EPS if integer else 64 * e32) * np.abs(rep / pf) + 1e-300, f'tile:sum:dtype={dt}', f'tile({dt}{small} {variant}, {factor}, sum) vs value/prod(factor)'):
+            R.expect_close(float(np.asarray(ts, dtype=float).sum()), float(yf.sum()), (256 * EPS if integer else 64 * e32) * max(float(np.abs(yf).sum()), 1e-300),
+                           f'tile:sum:dtype={dt}:conserve', 'total of the tiled array')
+    R.nontrivial(pf > 1)
+    R.outcome(dt)
+
 
 
 # ---------------------------------------------------------------------------------------------
@@ -360,6 +495,61 @@ def run_bayer(case, seed, R):
     R.outcome(cfa)
 
 
+INT_MOSAICS = [('uint8', 2 ** 8 - 1), ('uint16', 2 ** 8 - 1), ('uint16', 2 ** 16 - 1),
+               ('uint32', 2 ** 8 - 1), ('uint32', 2 ** 16 - 1), ('uint32', 2 ** 28), ('uint32', 2 ** 32 - 1),
+               ('int64', 2 ** 8 - 1), ('int64', 2 ** 16 - 1), ('int64', 2 ** 28), ('int64', 2 ** 32 - 1)]
+
+
+def ints(a):
+    return [int(v) for v in np.asarray(a).ravel().tolist()]
+
+
+def run_bayer_int(case, seed, R):
+    """Integer raw frames: every routine must hand back the raw sample at its native colour site EXACTLY."""
+    m, n, cfa, dt, top = case['m'], case['n'], case['cfa'], case['dtype'], case['top']
+    h, w = m // 2, n // 2
+    k = np.arange(m * n, dtype=np.int64)
+    vals = np.where(k % 3 == 0, k % (top + 1), top - (7 * k + 3) % min(top + 1, 1021))     # low counts and odd values just below the top
+    x = vals.astype(dt).reshape(m, n)
+    x0 = x.copy()
+    xi = [[int(v) for v in row] for row in x0.tolist()]
+    tag = f'{dt}:top=2^{int(np.log2(top + 1)) if (top + 1) & top == 0 else 28}'
+    planes = R.call(bayer.decomposite_bayer, x, cfa)
+    if planes is not FAILED and R.expect(len(planes) == 4 and all(np.asarray(p).shape == (h, w) for p in planes), f'decomposite:int:{cfa}', 'four (m//2, n//2) planes'):
+        for nm, p in zip(PLANES, planes):
+            want = [xi[i][j] for i in range(m) for j in range(n) if colour(i, j, cfa) == nm]
+            R.expect(ints(p) == want, f'decomposite:int:{cfa}', f'plane {nm} of a {tag} mosaic is not the raw samples')
+        back = R.call(bayer.recomposite_bayer, *[np.ascontiguousarray(p) for p in planes], cfa)
+        if back is not FAILED:
+            R.expect(np.asarray(back).shape == (m, n) and ints(back) == ints(x0), f'recomposite(decomposite):int:{cfa}', f'round trip of a {tag} mosaic')
+    back = R.call(bayer.composite_bayer, x, x, x, x, cfa)
+    if back is not FAILED:
+        R.expect(np.asarray(back).shape == (m, n) and ints(back) == ints(x0), f'composite:int:{cfa}', f'compositing four copies of a {tag} mosaic')
+    di = R.call(bayer.demosaic_deinterlace, x, cfa)
+    if di is not FAILED and R.expect(np.asarray(di).shape == (h, w, 3), f'deinterlace:int:{cfa}', 'shape (m//2, n//2, 3)'):
+        di = np.asarray(di)
+        for ch, nm in ((0, 'r'), (2, 'b')):
+            want = [xi[i][j] for i in range(m) for j in range(n) if colour(i, j, cfa) == nm]
+            got = di[..., ch].ravel().tolist()
+            R.expect(all(float(g) == float(wv) and int(g) == wv for g, wv in zip(got, want)), f'deinterlace:native-site:int:{cfa}',
+                     f'{nm} plane of demosaic_deinterlace on a {tag} mosaic is not the raw samples (first {got[:3]} vs {want[:3]})')
+    rgb = R.call(bayer.demosaic_malvar, x, cfa)
+    R.expect(ints(x) == ints(x0), f'malvar:{cfa}:mutates-input', 'demosaic_malvar modified its integer input')
+    if rgb is not FAILED and R.expect(np.asarray(rgb).shape == (m, n, 3), f'malvar:int:{cfa}:shape', 'shape (m, n, 3)'):
+        rgb = np.asarray(rgb)
+        bad = []
+        for i in range(m):
+            for j in range(n):
+                ch = {'r': 0, 'g1': 1, 'g2': 1, 'b': 2}[colour(i, j, cfa)]
+                g = rgb[i, j, ch].item()
+                if not (float(g) == float(xi[i][j]) and int(g) == xi[i][j]):
+                    bad.append((i, j, g, xi[i][j]))
+        R.expect(not bad, f'malvar:native-site:int:{cfa}', f'{tag} mosaic: raw sample changed at its native colour site (i, j, got, raw): {bad[:4]}')
+    R.nontrivial(True)
+    R.outcome(dt)
+
+
+
 # ---------------------------------------------------------------------------------------------
 # white balance helpers
 
@@ -452,12 +642,21 @@ def plan(tier, seed):
                     for dn in (None, 'ones', 'ramp') for pn in (None, 'ones', 'ramp')
                     for b in range(1, 33) for g in (1.0, 0.5, 2.0, 3.7) for bi in (0, 10, -5) for fw in (1e3, 1e12)
                     for fr in (1, 3) for sh in ((2, 4), (3, 3))]
+    layout_cases = [{'bits': b, 'gain': g, 'frames': fr, 'maps': mp, 'maps_too': mt, 'shape': list(sh), 'layout': lay}
+                    for lay in LAYOUTS for sh in ((2, 4), (3, 3), (4, 6), (5, 2)) for b in (8, 12, 16, 32) for g in (1.0, 3.7) for fr in (1, 3)
+                    for mp, mt in ((None, False), ('ramp', False), ('ramp', True))]
     B1, B2, B3 = (6, 6, 6) if tier == 'quick' else (12, 8, 6)
     shapes = [(a,) for a in range(1, B1 + 1)] + list(itertools.product(range(1, B2 + 1), repeat=2)) + list(itertools.product(range(1, B3 + 1), repeat=3))
     shapes.sort(key=lambda s: (len(s), int(np.prod(s)), s))
     bin_cases = [{'shape': list(s), 'factor': list(f)} for s in shapes for f in itertools.product(*[divisors(a) for a in s])]
+    Bd = 4 if tier == 'quick' else 6
+    dshapes = [sh for sh in shapes if len(sh) < 3 or max(sh) <= Bd]
+    bin_dtype_cases = [{'shape': list(sh), 'factor': list(f), 'dtype': dt} for dt in BIN_DTYPES for sh in dshapes
+                       for f in itertools.product(*[divisors(a) for a in sh])]
     BB = 8 if tier == 'quick' else 12
     bayer_cases = [{'m': m, 'n': n, 'cfa': cfa} for m in range(2, BB + 1, 2) for n in range(2, BB + 1, 2) for cfa in ('rggb', 'bggr')]
+    bayer_int_cases = [{'m': m, 'n': n, 'cfa': cfa, 'dtype': dt, 'top': top} for m in range(2, BB + 1, 2) for n in range(2, BB + 1, 2)
+                       for cfa in ('rggb', 'bggr') for dt, top in INT_MOSAICS]
     wb_cases = []
     for helper, names in (('pre', PLANES), ('post', ('r', 'g', 'b'))):
         for cfa in (('rggb', 'bggr') if helper == 'pre' else ('rggb',)):
@@ -473,12 +672,22 @@ def plan(tier, seed):
                   'x image shape {(2,4),(3,3)}; per configuration one uniform exposure for every signal in {0,0.4,1,c-1,c,c+1,10c (c = (2^bits-1)*gain and fwc, also shifted by the bias), 2^bits*gain, 1e13} '
                   'plus one image mixing them; noise-free via the mathops backend shim; oracle: shape, dtype, range, reference model (band of one DN only where x/gain is within 8 eps of an integer), '
                   'monotone over ALL ordered signal pairs per pixel and frame'),
+        ScopeUnit('expose_layout', layout_cases, run_expose_layout,
+                  'aerial-image memory layout {C, Fortran, transposed view, strided slice of a larger frame, negative strides} x non-square and square shapes {(2,4),(3,3),(4,6),(5,2)} x bits {8,12,16,32} '
+                  'x gain {1,3.7} x frames {1,3} x non-uniformity maps {None, ramp in C order, ramp in the same layout}: images whose pixels all differ (ramp into saturation, mixed ceiling alphabet) '
+                  'must come back pixel for pixel as the reference model says, whatever the layout'),
         ScopeUnit('bin_tile', bin_cases, run_bin,
                   f'every shape with axes <= {B1} (1-D), {B2} (2-D), {B3} (3-D) x EVERY per-axis factor tuple dividing it: operator matrices over every unit impulse of bindown(sum), bindown(avg), tile(avg), tile(sum) '
                   'against the block-membership matrix; total / level conservation; both documented adjoint pairs; dense array, defaults, aliases, scalar factor, invalid mode'),
+        ScopeUnit('bin_tile_dtype', bin_dtype_cases, run_bin_dtype,
+                  f'dtype {{bool, uint8, uint16, int32, float32}} x every shape (1-D, 2-D as above, 3-D axes <= {Bd}) x EVERY dividing factor tuple x data {{at the top of the dtype range, mid-range (12-bit frames, dense masks)}}: '
+                  'bindown(sum) equals the exact per-bin sums and conserves the total computed in Python integers; bindown(avg) equals the exact means; tile(avg) replicates exactly, tile(sum) spreads value/prod(factor)'),
         ScopeUnit('bayer', bayer_cases, run_bayer,
                   f'every even shape in [2..{BB}]^2 x CFA {{rggb, bggr}}: operator matrices of decomposite_bayer, recomposite_bayer, composite_bayer, demosaic_deinterlace, demosaic_malvar against the '
                   'colour-of-site function; round trips both ways; Malvar native sites are exact identity rows, all rows sum to 1, interior rows equal the published kernels; dense mosaic, output= buffers'),
+        ScopeUnit('bayer_int', bayer_int_cases, run_bayer_int,
+                  f'integer raw frames: every even shape in [2..{BB}]^2 x CFA x (dtype, top value) in {{uint8:2^8-1; uint16:2^8-1,2^16-1; uint32 and int64: 2^8-1, 2^16-1, 2^28, 2^32-1}}: decomposite / recomposite / composite exact, '
+                  'r and b planes of demosaic_deinterlace and the native colour sites of demosaic_malvar equal the raw integers exactly (compared as Python ints)'),
         ScopeUnit('white_balance', wb_cases, run_wb,
                   'wb_prescale (both CFAs) and wb_postscale x shapes {(2,2),(4,6)} x ALL gain tuples from {0.5,1,2} x {plain, safe x hot plane in {none, each plane, all} x saturation {scalar, per-plane list}}: '
                   'in-place result equals site gains divided by the common ratio max(1, max(plane)/saturation) over every documented plane; no plane ends above gain*saturation'),
